@@ -122,7 +122,7 @@ def stepLine (st : St) (line : String) : St × String :=
   | ["track", d] =>
     match d.toNat? with
     | some d => ({ st with track := some d },
-        s!"pot={potential st.t st.s d} path={showList (path st.t d)}")
+        s!"pot={potential st.t st.s d} dpot={dpotential st.t st.s} path={showList (path st.t d)}")
     | none => (st, "parse-error")
   | ["show"] => (st, showState st.t st.nc st.s)
   | ["recvall", eof] =>
@@ -145,7 +145,8 @@ def stepLine (st : St) (line : String) : St × String :=
       | some s' =>
         let extra := match st.track with
           | none => ""
-          | some d => s!" ;; crit={b (isCrit st.t st.s d l)} growth={growth st.t st.s d l} pot={potential st.t s' d}"
+          | some d => s!" ;; crit={b (isCrit st.t st.s d l)} growth={growth st.t st.s d l} pot={potential st.t s' d}" ++
+              s!" dcrit={b (isDownCrit st.t st.s l)} dgrowth={downGrowth st.t st.s l} dpot={dpotential st.t s'}"
         ({ st with s := s' }, showState st.t st.nc s' ++ extra)
 
 def main : IO Unit := do
